@@ -185,6 +185,13 @@ func (c ConfigSpec) Bytes() (Config, error) {
 	if !validPublicName(c.PublicName) {
 		return nil, errors.New("invalid public name")
 	}
+	// HpkePublicKey<1..2^16-1> and cipher_suites<4..2^16-4> cannot be empty.
+	if len(c.PublicKey) == 0 {
+		return nil, errors.New("invalid public key")
+	}
+	if len(c.CipherSuites) == 0 {
+		return nil, errors.New("invalid cipher suites")
+	}
 	b := cryptobyte.NewBuilder(nil)
 	b.AddUint16(c.Version)
 	b.AddUint16LengthPrefixed(func(b *cryptobyte.Builder) {
